@@ -686,6 +686,33 @@ def m_list_hook(e, st, a, I):
     e.store(st, P(pos, 8), x, PTR)
 
 
+def m_list_transfer(e, st, a, I):
+    """std::__detail::_List_node_base::_M_transfer(first, last): splice [first,last) before this"""
+    pos, first, last = a
+
+    def same(u, v):
+        return u.obj == v.obj and u.off == v.off
+    if same(pos, last):
+        return
+    nxt = lambda n: e.load(st, n, PTR)
+    prv = lambda n: e.load(st, P(n, 8), PTR)
+    e.store(st, prv(last), pos, PTR)            # last->prev->next = this
+    e.store(st, prv(first), last, PTR)          # first->prev->next = last
+    e.store(st, prv(pos), first, PTR)           # this->prev->next = first
+    tmp = prv(pos)
+    e.store(st, P(pos, 8), prv(last), PTR)      # this->prev = last->prev
+    e.store(st, P(last, 8), prv(first), PTR)    # last->prev = first->prev
+    e.store(st, P(first, 8), tmp, PTR)          # first->prev = tmp
+
+
+def m_list_unhook(e, st, a, I):
+    x = a[0]
+    n = e.load(st, x, PTR)
+    p = e.load(st, P(x, 8), PTR)
+    e.store(st, P(n, 8), p, PTR)
+    e.store(st, p, n, PTR)
+
+
 # ---------------- regex (concrete only in spike)
 REGEX = {}
 
@@ -1173,6 +1200,8 @@ M3 = {
     "_ZNKSt8__detail20_Prime_rehash_policy14_M_need_rehashEmmm": m_need_rehash,
     "_ZSt11_Hash_bytesPKvmm": m_hash_bytes,
     "_ZNSt8__detail15_List_node_base7_M_hookEPS0_": m_list_hook,
+    "_ZNSt8__detail15_List_node_base11_M_transferEPS0_S1_": m_list_transfer,
+    "_ZNSt8__detail15_List_node_base9_M_unhookEv": m_list_unhook,
     "_ZNSt6localeC1Ev": m_nop, "_ZNSt6localeC1ERKS_": m_nop, "_ZNSt6localeD1Ev": m_nop, "_ZNSt6localeaSERKS_": m_retself,
     "_ZNSt7__cxx1111basic_regexIcNS_12regex_traitsIcEEE10_M_compileEPKcS5_NSt15regex_constants18syntax_option_typeE": m_regex_compile,
     "_ZNSo5tellpEv": m_tellp, "_ZNSo5seekpESt4fposI11__mbstate_tE": m_seekp, "_ZNSo5writeEPKcl": m_write2, "_ZNSi4readEPcl": m_read2,
